@@ -20,14 +20,17 @@ pub struct HdlCfg {
     pub table: [[bool; 4]; 4],
     /// bit (addr % 32) set ⇒ should_add_broadcast_data(member) is true
     pub allow_mask: u32,
+    /// the handler itself has nothing against an empty item (an opaque-blob handler): foca's own guard is then
+    /// all that stands between add_broadcast(&[]) and an empty item on the wire
+    pub accept_empty: bool,
 }
 
 impl HdlCfg {
     pub const fn disabled() -> Self {
-        HdlCfg { enabled: false, mode: 0, table: [[false; 4]; 4], allow_mask: u32::MAX }
+        HdlCfg { enabled: false, mode: 0, table: [[false; 4]; 4], allow_mask: u32::MAX, accept_empty: false }
     }
     pub const fn simple() -> Self {
-        HdlCfg { enabled: true, mode: 0, table: [[false; 4]; 4], allow_mask: u32::MAX }
+        HdlCfg { enabled: true, mode: 0, table: [[false; 4]; 4], allow_mask: u32::MAX, accept_empty: false }
     }
     pub fn allows(&self, id: &Id) -> bool {
         self.allow_mask & (1 << (id.addr % 32)) != 0
@@ -130,7 +133,8 @@ impl BroadcastHandler<Id> for Hdl {
             self.log.borrow_mut().push(entry);
             return Err(HErr("broadcasts disabled"));
         }
-        let Some((tag, key, version)) = parse_item(data) else {
+        let parsed = if data.is_empty() && self.cfg.accept_empty { Some((0xE000_0000, 0, 1)) } else { parse_item(data) };
+        let Some((tag, key, version)) = parsed else {
             self.log.borrow_mut().push(entry);
             return Err(HErr("empty item"));
         };
